@@ -106,6 +106,7 @@ func initFacts(np string) []string {
 			if ip := net.ParseIP(c); ip != nil {
 				add(fmt.Sprintf("I:%s:%s", hx(c), vu.Hex(ip)))
 			}
+			c = strings.TrimSuffix(c, ".")
 			if c == "" {
 				continue
 			}
@@ -627,7 +628,9 @@ func prefixEq(a, b []byte, n int) bool {
 // specBypass is the documented rule, written directly: localhost / loopback, or some NO_PROXY
 // value matches ("*", IP[:port], CIDR, domain[:port] with leading "." / "*." = subdomains only).
 func specBypass(np string, host, port string, ip net.IP) (bool, string) {
-	if strings.ToLower(strings.TrimSpace(host)) == "localhost" { // host names are case-insensitive
+	// names are compared case-insensitively and without the trailing dot of a rooted spelling
+	h := strings.TrimSuffix(strings.ToLower(strings.TrimSpace(host)), ".")
+	if h == "localhost" {
 		return true, "localhost"
 	}
 	var a netip.Addr
@@ -640,7 +643,6 @@ func specBypass(np string, host, port string, ip net.IP) (bool, string) {
 			return true, "loopback"
 		}
 	}
-	h := strings.ToLower(strings.TrimSpace(host))
 	for _, p := range strings.Split(np, ",") {
 		p = strings.ToLower(strings.TrimSpace(p))
 		if p == "" {
@@ -682,7 +684,10 @@ func specBypass(np string, host, port string, ip net.IP) (bool, string) {
 			continue
 		}
 		subOnly := false
-		d := ph
+		d := strings.TrimSuffix(ph, ".")
+		if d == "" {
+			continue
+		}
 		if strings.HasPrefix(d, "*.") {
 			d, subOnly = d[2:], true
 		} else if strings.HasPrefix(d, ".") {
